@@ -57,9 +57,9 @@ RNNStep(X, W, R, B, t, H, f, Hd) ==
 RECURSIVE RNNRun(_, _, _, _, _, _, _, _, _)
 RNNRun(X, W, R, B, t, H, Ys, f, Hd) ==
    IF t > X.shape[1] THEN [H |-> H, Ys |-> Ys, ok |-> TRUE]
-   ELSE LET s == RNNStep(X, W, R, B, t, H, f, Hd) IN
+   ELSE Let(RNNStep(X, W, R, B, t, H, f, Hd), LAMBDA s :
         IF ~s.ok THEN [H |-> H, Ys |-> Ys, ok |-> FALSE]
-        ELSE RNNRun(X, W, R, B, t + 1, s.H, Append(Ys, s.H), f, Hd)
+        ELSE Let(s.H, LAMBDA h : Let(Append(Ys, h), LAMBDA ys : RNNRun(X, W, R, B, t + 1, h, ys, f, Hd))))
 
 \* --------------------------------------------------------------------- GRU
 \* gates z = 0, r = 1, h = 2
@@ -85,9 +85,9 @@ GRUStep(X, W, R, B, t, H, f, g, lbr, Hd) ==
 RECURSIVE GRURun(_, _, _, _, _, _, _, _, _, _, _)
 GRURun(X, W, R, B, t, H, Ys, f, g, lbr, Hd) ==
    IF t > X.shape[1] THEN [H |-> H, Ys |-> Ys, ok |-> TRUE]
-   ELSE LET s == GRUStep(X, W, R, B, t, H, f, g, lbr, Hd) IN
+   ELSE Let(GRUStep(X, W, R, B, t, H, f, g, lbr, Hd), LAMBDA s :
         IF ~s.ok THEN [H |-> H, Ys |-> Ys, ok |-> FALSE]
-        ELSE GRURun(X, W, R, B, t + 1, s.H, Append(Ys, s.H), f, g, lbr, Hd)
+        ELSE Let(s.H, LAMBDA h : Let(Append(Ys, h), LAMBDA ys : GRURun(X, W, R, B, t + 1, h, ys, f, g, lbr, Hd))))
 
 \* -------------------------------------------------------------------- LSTM
 \* gates i = 0, o = 1, f = 2, c = 3 ; peepholes p_i = block 0, p_o = block 1, p_f = block 2
@@ -116,9 +116,9 @@ LSTMStep(X, W, R, B, P, t, H, C, fa, ga, ha, coupled, Hd) ==
 RECURSIVE LSTMRun(_, _, _, _, _, _, _, _, _, _, _, _, _, _)
 LSTMRun(X, W, R, B, P, t, H, C, Ys, fa, ga, ha, coupled, Hd) ==
    IF t > X.shape[1] THEN [H |-> H, C |-> C, Ys |-> Ys, ok |-> TRUE]
-   ELSE LET s == LSTMStep(X, W, R, B, P, t, H, C, fa, ga, ha, coupled, Hd) IN
+   ELSE Let(LSTMStep(X, W, R, B, P, t, H, C, fa, ga, ha, coupled, Hd), LAMBDA s :
         IF ~s.ok THEN [H |-> H, C |-> C, Ys |-> Ys, ok |-> FALSE]
-        ELSE LSTMRun(X, W, R, B, P, t + 1, s.H, s.C, Append(Ys, s.H), fa, ga, ha, coupled, Hd)
+        ELSE Let(s.H, LAMBDA h : Let(s.C, LAMBDA c : Let(Append(Ys, h), LAMBDA ys : LSTMRun(X, W, R, B, P, t + 1, h, c, ys, fa, ga, ha, coupled, Hd)))))
 
 \* ------------------------------------------------------------- node semantics
 \* inputs: <<X, W, R, B, sequence_lens, initial_h (, initial_c, P)>> padded with Nil; attrs as usual.
@@ -134,7 +134,7 @@ RecShapesOK(op, inputs, Hd) ==
    /\ (IsNil(B) \/ B.shape = <<1, 2 * G * Hd>>)
    /\ (IsNil(h0) \/ h0.shape = <<1, X.shape[2], Hd>>)
    /\ (op # "LSTM" \/ ((IsNil(c0) \/ c0.shape = <<1, X.shape[2], Hd>>) /\ (IsNil(P) \/ P.shape = <<1, 3 * Hd>>)))
-SemRecurrent(op, attrs, inputs, nout) ==
+SemRecurrentV(op, attrs, inputs, nout) ==
    LET X == In(inputs, 1) W == In(inputs, 2) R == In(inputs, 3) B == In(inputs, 4) sl == In(inputs, 5)
        h0 == In(inputs, 6) c0 == In(inputs, 7) P == In(inputs, 8)
        Hd == AttrV(attrs, "hidden_size", 0)
@@ -157,4 +157,5 @@ SemRecurrent(op, attrs, inputs, nout) ==
                        a == MustValue(Take(outs, nout))
                    IN [ok |-> TRUE,
                        allowed |-> Weaken(X.dt # "f32" \/ (op = "LSTM" /\ AttrV(attrs, "input_forget", 0) # 0), a)]
+SemRecurrent(op, attrs0, inputs0, nout) == Let(attrs0, LAMBDA attrs : Let(inputs0, LAMBDA inputs : SemRecurrentV(op, attrs, inputs, nout)))
 =============================================================================
